@@ -157,6 +157,9 @@ func collectImportsFromType(t types.Type, pkg string, imports map[string]*Import
 				referencedImports[pkgPath] = newImp
 			}
 		}
+		for arg := range typ.TypeArgs().Types() {
+			collectImportsFromType(arg, pkg, imports, referencedImports, varPool)
+		}
 	case *types.Alias:
 		if objPkg := typ.Obj().Pkg(); objPkg != nil && objPkg.Path() != pkg {
 			pkgPath := objPkg.Path()
@@ -174,6 +177,9 @@ func collectImportsFromType(t types.Type, pkg string, imports map[string]*Import
 				imports[pkgPath] = newImp
 				referencedImports[pkgPath] = newImp
 			}
+		}
+		for arg := range typ.TypeArgs().Types() {
+			collectImportsFromType(arg, pkg, imports, referencedImports, varPool)
 		}
 	case *types.Pointer:
 		collectImportsFromType(typ.Elem(), pkg, imports, referencedImports, varPool)
